@@ -84,7 +84,7 @@ static bool disarm(Mode m) { bool fired = (m == M_ALLOC) ? mm().firedAfter : (m 
 // `snap` renders the observable state (contents in order + count).
 template<typename C>
 static void sweep(Ctx& c, const std::string& name, const std::function<void(C&)>& make, const std::function<void(C&)>& op,
-	const std::function<std::string(C&)>& snap, bool functorFaults, bool exactBlocks = false)
+	const std::function<std::string(C&)>& snap, bool functorFaults, int exactBlocks = 0 /* 1: for every fault kind, 2: for functor / parameter-class faults only */)
 {
 	for (int m = 0; m < (functorFaults ? 3 : 2); ++m) {
 		for (long k = 0; k < 400; ++k) {
@@ -107,7 +107,7 @@ static void sweep(Ctx& c, const std::string& name, const std::function<void(C&)>
 					if (after != before) c.fail("C04 strong: %s, %s failure #%ld: state changed: before {%s} after {%s}", name.c_str(), modeName[m], k, before.c_str(), after.c_str());
 					if (ec().live != liveBefore) c.fail("C04 leak: %s, %s failure #%ld: %ld element objects alive, %ld before the call", name.c_str(), modeName[m], k, ec().live, liveBefore);
 					// containers whose every block is a block of the manager (no pool buffers): nothing may be left allocated by the failed call
-					if (exactBlocks && mm().live.size() != blocksBefore) c.fail("C04 leak: %s, %s failure #%ld: %zu blocks of the memory manager outstanding after the failed call, %zu before it", name.c_str(), modeName[m], k, mm().live.size(), blocksBefore);
+					if ((exactBlocks == 1 || (exactBlocks == 2 && m == M_FUNC)) && mm().live.size() != blocksBefore) c.fail("C04 leak: %s, %s failure #%ld: %zu blocks of the memory manager outstanding after the failed call, %zu before it", name.c_str(), modeName[m], k, mm().live.size(), blocksBefore);
 					// remains fully usable: the same operation without a fault succeeds
 					try { op(cont); } catch (...) { c.fail("C04 usable: %s, %s failure #%ld: the retried operation threw", name.c_str(), modeName[m], k); }
 					if (c.stats.samples.size() < 10) c.stats.sample(fmt("%s: %s failure #%ld -> exception, state {%s} unchanged, retry ok", name.c_str(), modeName[m], k, before.size() > 60 ? (before.substr(0, 60) + "…").c_str() : before.c_str()));
@@ -351,13 +351,14 @@ static void allocateCreateSweeps(Ctx& c, const char* en)
 	typedef momo::TreeMap<E, E, Tr, FaultMM, momo::TreeMapKeyValueTraits<E, E, FaultMM>, NoExtraTM> Map;
 	static_assert(Set::Node::leafMemPoolCount >= 3, "several leaf pools, so that a later pool's parameters can fail after earlier pools exist");
 	std::string N = fmt("pool-params fault %s", en);
-	sweep<Set>(c, "TreeSet.Insert(first: creates NodeParams) " + N, [](Set&) {}, [](Set& s) { s.Insert(E(5)); }, snapSet<Set>, true, true);
-	sweep<Map>(c, "TreeMap.Insert(first: creates NodeParams) " + N, [](Map&) {}, [](Map& m) { m.Insert(E(5), E(6)); }, snapMap<Map>, true, true);
-	sweep<Map>(c, "TreeMap.operator[](first: creates NodeParams) " + N, [](Map&) {}, [](Map& m) { E k(5); m[k] = E(6); }, snapMap<Map>, true, true);
+	sweep<Set>(c, "TreeSet.Insert(first: creates NodeParams) " + N, [](Set&) {}, [](Set& s) { s.Insert(E(5)); }, snapSet<Set>, true, 2);
+	sweep<Map>(c, "TreeMap.Insert(first: creates NodeParams) " + N, [](Map&) {}, [](Map& m) { m.Insert(E(5), E(6)); }, snapMap<Map>, true, 2);
+	sweep<Map>(c, "TreeMap.operator[](first: creates NodeParams) " + N, [](Map&) {}, [](Map& m) { E k(5); m[k] = E(6); }, snapMap<Map>, true, 2);
 	sweep<Set>(c, "TreeSet.operator=(copy into empty: creates NodeParams) " + N, [](Set&) {}, [](Set& s) { mm().disarm(); long cc = ec().copyCountdown, fcd = fc().countdown; ec().copyCountdown = -1; fc().countdown = -1; Set t; for (unsigned i = 0; i < 7; ++i) t.Insert(E(700 + i)); ec().copyCountdown = cc; fc().countdown = fcd; s = t; }, snapSet<Set>, true);
 	for (unsigned n : { 1u, 6u }) ctorSweep3(c, fmt("TreeSet(copy) n=%u ", n) + N, [n] { long cc = ec().copyCountdown, fcd = fc().countdown; long ra = mm().refuseAfter; ec().copyCountdown = -1; fc().countdown = -1; mm().refuseAfter = -1; Set s; for (unsigned i = 0; i < n; ++i) s.Insert(E(i * 4)); ec().copyCountdown = cc; fc().countdown = fcd; mm().refuseAfter = ra; Set d(s); });
 	{	// MergeTo into a set that never had nodes: the destination's NodeParams are created by the merge (TreeSet.h fast path)
-		typedef momo::TreeSet<E, momo::TreeTraits<E, false, Node, true>, FaultMM, momo::TreeSetItemTraits<E, FaultMM>, NoExtraT> SetE;
+		typedef Set SetE;	// ThrowTreeTraits is an empty class: MergeTo takes the splice path
+		static_assert(std::is_empty<Tr>::value, "");
 		for (long k = 0; k < 40; ++k) {
 			bool threw = false, fired = false;
 			{
@@ -386,10 +387,10 @@ static void allocateCreateSweeps(Ctx& c, const char* en)
 	typedef momo::HashSet<E, ThrowHashTraits<E, HB1>, FaultMM, momo::HashSetItemTraits<E, FaultMM>, NoExtraS> HSet1;
 	typedef momo::HashSet<E, ThrowHashTraits<E, HBP>, FaultMM, momo::HashSetItemTraits<E, FaultMM>, NoExtraS> HSetP;
 	typedef momo::HashMap<E, E, ThrowHashTraits<E, HB1>, FaultMM, momo::HashMapKeyValueTraits<E, E, FaultMM>, NoExtraM> HMap1;
-	sweep<HSet1>(c, "HashSet<LimP1>.Insert(first: creates BucketParams) " + N, [](HSet1&) {}, [](HSet1& s) { s.Insert(E(5)); }, snapSet<HSet1>, true, true);
-	sweep<HSetP>(c, "HashSet<LimP>.Insert(first: creates BucketParams) " + N, [](HSetP&) {}, [](HSetP& s) { s.Insert(E(5)); }, snapSet<HSetP>, true, true);
-	sweep<HSet1>(c, "HashSet<LimP1>.Reserve(first: creates BucketParams) " + N, [](HSet1&) {}, [](HSet1& s) { s.Reserve(10); }, snapSet<HSet1>, true, true);
-	sweep<HMap1>(c, "HashMap<LimP1>.operator[](first: creates BucketParams) " + N, [](HMap1&) {}, [](HMap1& m) { E k(5); m[k] = E(6); }, snapMap<HMap1>, true, true);
+	sweep<HSet1>(c, "HashSet<LimP1>.Insert(first: creates BucketParams) " + N, [](HSet1&) {}, [](HSet1& s) { s.Insert(E(5)); }, snapSet<HSet1>, true, 2);
+	sweep<HSetP>(c, "HashSet<LimP>.Insert(first: creates BucketParams) " + N, [](HSetP&) {}, [](HSetP& s) { s.Insert(E(5)); }, snapSet<HSetP>, true, 2);
+	sweep<HSet1>(c, "HashSet<LimP1>.Reserve(first: creates BucketParams) " + N, [](HSet1&) {}, [](HSet1& s) { s.Reserve(10); }, snapSet<HSet1>, true, 2);
+	sweep<HMap1>(c, "HashMap<LimP1>.operator[](first: creates BucketParams) " + N, [](HMap1&) {}, [](HMap1& m) { E k(5); m[k] = E(6); }, snapMap<HMap1>, true, 2);
 	for (unsigned n : { 1u, 6u }) ctorSweep3(c, fmt("HashSet<LimP1>(copy) n=%u ", n) + N, [n] { long cc = ec().copyCountdown, fcd = fc().countdown; long ra = mm().refuseAfter; ec().copyCountdown = -1; fc().countdown = -1; mm().refuseAfter = -1; HSet1 s; for (unsigned i = 0; i < n; ++i) s.Insert(E(i * 3)); ec().copyCountdown = cc; fc().countdown = fcd; mm().refuseAfter = ra; HSet1 d(s); });
 	// crew: Data(containerTraits) copies the traits object
 	typedef CopyThrowHashTraits<E, momo::HashBucketLimP4<>> CTH;
